@@ -1,4 +1,6 @@
 """C05 - all details and every traceback reach the result; none is dropped or overwritten."""
+import re
+
 from hypothesis import strategies as st
 
 from vp.core import Case, Sub, V
@@ -24,7 +26,8 @@ RULE = ("Generated test programs whose stages attach details under arbitrary nam
         "may be (type, value, None) triples, interrupts may strike inside expectFailure / assertRaises, one result in eight "
         "asks for locals in tracebacks (tb_locals); a traceback "
         "detail must show the raise site (a frame in vp/programs.py) unless the exc_info had no traceback object; "
-        "no generated detail is identified by its name or MIME subtype any more. Seven exhaustive grids (payload x source x "
+        "no generated detail is identified by its name or MIME subtype any more (after the fourth audit: nor by the "
+        "class name MismatchError / the wording '1 != 2', and the reason is found by its bytes, not only under 'reason'). Seven exhaustive grids (payload x source x "
         "outcome, lazy mismatch details, 10..21 tracebacks, tb-None constituents, 10+ renamings / repeated registrations / re-raised MultipleExceptions, interrupts inside helpers) make these "
         "catches independent of the seed. Non-trivial: a name collision, or >= 2 tracebacks, or "
         "fixture + mismatch + traceback details together; distinct = distinct canonical program.")
@@ -47,6 +50,21 @@ ASSUMPTIONS = [
     "'reason' is overwritten by the skip / expectFailure reason on the current tree (third audit B1, not filed here)",
     "@unittest.expectedFailure bodies raise at most one plain exception (a MultipleExceptions under the decorator is "
     "reported as one traceback quoting the exc_info tuples: audit-2 L1, not generated)",
+    "addOnException handlers registered on the instance before run() stay registered over runs of that instance: the "
+    "second run of the same program calls such a handler as often as the first (the statement is silent on handler "
+    "lifetime; a tree that forgets its handlers after the outcome is reported as rerun-call-count)",
+    "fixture details are 'the bytes the content yields' when useFixture gathers them (after a successful setUp, or "
+    "when setUp fails) - gather_details' docstring: it 'evaluates all details in source_dict' - not when the outcome "
+    "is reported: a fixture whose cleanUp empties its buffers still delivers what it held at gathering time",
+    "'every failure or error raised' counts raises, not exception objects: the same exception or MultipleExceptions "
+    "instance raised again by a later stage is reported again (one more traceback per constituent, one more handler call)",
+    "the handlers are called once per reported exception (each constituent of a MultipleExceptions); at most one "
+    "additional call per MultipleExceptions wrapper is tolerated, none for a plain exception",
+    "the assertion behind expectFailure(reason, assertEqual, 1, 2) is recognised by a summary that mentions both operands, "
+    "carries no marker and is not a MultipleExceptions wrapper's; the failed-expectation detail by the marker of its "
+    "matcher alone; a skip raised without arguments has no reason to report (any placeholder or none is accepted); a "
+    "marked reason is found by its bytes under any name no user detail owns, an unmarked one ('' / '42') under a name "
+    "containing 'reason'",
 ]
 
 BASE = P.programs(multi=True, details=True, fixture=True, expect=True, onexc=True, cleanup_depth=2, p_raise=5, nonexc=True, texts=True, decor=True)
@@ -56,6 +74,7 @@ BARE_CHUNKS = st.one_of(st.sampled_from([[], [b""], [b"", b""], [b"", b"a"], [BI
                         st.lists(st.sampled_from([b"", b"a", b"\xff\x00", "\u00e9".encode("utf8"), b"two\nlines", BIG]), max_size=3))
 THIRD = st.integers(0, 2)
 QUARTER = st.integers(0, 3)
+XF_ONE, XF_TWO = re.compile(r"(?<!\w)1(?!\w)"), re.compile(r"(?<!\w)2(?!\w)")     # the operands of assertEqual(1, 2)
 NO_TB_KINDS = ("fail", "assertion_sub", "error", "error_key", "error_falsy", "kbi", "sysexit")
 
 
@@ -197,7 +216,14 @@ def _run_case(prog):
             shown = g["marker"] in no_tb or "programs.py" in text
             return shown and ("MARK-%d-" % g["marker"]) in last[0] and "MultipleExceptions" not in last[0]
         if g["type"] == "traceback-xfail":
-            return "MismatchError" in text and "1 != 2" in text
+            # the assertion behind expectFailure(reason, assertEqual, 1, 2): some rendering of an exception whose own
+            # summary mentions both operands and is no other exception's (no marker, no MultipleExceptions wrapper);
+            # neither the exception's class name nor the wording / operand order of Equals' description is pinned
+            lines = [ln for ln in text.split("\n") if ln.strip()]
+            k = max([i for i, ln in enumerate(lines) if ln.startswith("  ")] or [-1])
+            summary = "\n".join(lines[k + 1:])
+            return (XF_ONE.search(summary) is not None and XF_TWO.search(summary) is not None and "MARK-" not in summary
+                    and "MultipleExceptions" not in summary)
         if g["type"] == "mismatch-detail":
             i, _, dn = g["marker"][1:].partition("/")
             pay = (acts[int(i)].get("mpay") or {}).get(dn)
@@ -211,7 +237,8 @@ def _run_case(prog):
                 return data == g["payload"] and (ct.type, ct.subtype) == ("application", "octet-stream") and params(ct) == {"id": g["marker"]}
             return data == g["marker"].encode("utf8") + g["payload"] and (ct.type, ct.subtype) == ("application", "octet-stream")
         if g["type"] == "failed-expectation":
-            return "MismatchError" in text and ("MARK-%d-" % g["marker"]) in text
+            # (the marker of an expectThat action occurs in no other entry; nothing is demanded of the wording around it)
+            return ("MARK-%d-" % g["marker"]) in text
         return False
     required = [g for g, ex in items if not ex]
     if required:
@@ -235,8 +262,10 @@ def _run_case(prog):
     if out[0] in ("addExpectedFailure", "addUnexpectedSuccess"):
         # expectFailure(reason, ...) records its reason
         xs = [r for r in model.raised if r["kind"] in ("xfail", "uxsuccess", "xf_error", "xf_skip", "xf_kbi")]
+        # (... under the name 'reason' or, when that name was taken by an earlier reason, under a name of its own: the
+        # entry is identified by its bytes, which no other source produces)
         rs = delivered.get("reason")
-        if xs and (rs is None or not any(("MARK-%d-" % r["i"]).encode() == rs[1] for r in xs)):
+        if xs and not any(("MARK-%d-" % r["i"]).encode() == delivered[n][1] for r in xs for n in names):
             vs.append(V("reason", "expectFailure", "reason detail of %s is %r, expectFailure was called with markers %r" % (out[0], rs and rs[1], [r["i"] for r in xs])))
     if out[0] == "addSkip" and model.skipped_by_decorator:
         # the reason given to the decorator is the reason reported
@@ -250,10 +279,17 @@ def _run_case(prog):
         skips = [r for r in model.raised if P.klass(r["kind"]) == "skip"]
         rs = delivered.get("reason")
         def reason_of(r):
-            if r["kind"] in ("skip_empty", "skip_noargs", "skip_int"):
-                return {"skip_empty": b"", "skip_noargs": b"no reason given.", "skip_int": b"42"}[r["kind"]]
+            if r["kind"] in ("skip_empty", "skip_int"):
+                return {"skip_empty": b"", "skip_int": b"42"}[r["kind"]]
             return ("MARK-%d-" % r["i"]).encode() + texts.get(r["i"], "").encode("utf8")
-        if rs is None or not any(reason_of(r) == rs[1] for r in skips):
+        def reported(r):
+            if r["kind"] == "skip_noargs":
+                return True         # a skip raised without any argument has no reason: whatever placeholder (or nothing) is reported
+            if r["kind"] in P.UNMARKED:
+                # a reason without a marker ('' / '42') is looked for under the reserved name and its renamings only
+                return any(reason_of(r) == delivered[n][1] for n in names if "reason" in n)
+            return any(reason_of(r) == delivered[n][1] for n in names)
+        if not any(reported(r) for r in skips):
             vs.append(V("reason", "skip", "skip reason detail is %r, raised skips %r" % (rs and rs[1], [r["i"] for r in skips])))
     # handlers
     user_raises = [r for r in model.raised if r["kind"] not in ("forced", "setup_error", "upcall_error", "restore_error")]
@@ -264,9 +300,26 @@ def _run_case(prog):
             hids.append(a["i"])
     executed = ([0] if prog.get("outside_handler") else []) + [h for h in hids if ("A", h) in model.log]
     out_index = next(i for i, e in enumerate(obs["shared"]) if e[0] in OUTCOMES)
+    wrappers = {}           # constituent id -> number of MultipleExceptions wrapped around it
+
+    def depth(subs, d):
+        for s in subs:
+            if s["kind"] == "multi" and s["sub"]:
+                depth(s["sub"], d + 1)
+            else:                   # (a MultipleExceptions without constituents is an ordinary error)
+                wrappers[s["i"]] = d
+    for a in acts.values():
+        if a["a"] == "raise" and a["kind"] == "multi":
+            depth(a["sub"], 1)
     for j, h in enumerate(executed):
         want = sum(1 for r in user_raises if r["handlers"] > j)
         lo, hi = want, want + sum(1 for r in model.raised if r["kind"] in ("forced", "setup_error", "upcall_error", "restore_error") and r["handlers"] > j)
+        # a MultipleExceptions wrapper is itself an exception raised by user code: the handlers may be told about it
+        # in addition to its constituents (at most one more call per wrapper around a reported constituent)
+        # (fixtures wraps a failing setUp's error and its SetupError, and the errors of failing cleanUps - negative
+        # ids -, in a MultipleExceptions of its own)
+        hi += sum(wrappers.get(r["i"], 0) for r in user_raises if r["handlers"] > j)
+        hi += sum(1 for r in model.raised if r["handlers"] > j and (r["kind"] == "setup_error" or (isinstance(r["i"], int) and r["i"] < 0)))
         calls = [c for c in obs["live"].handler_calls if c[0] == h]
         if not (lo <= len(calls) <= hi):
             vs.append(V("onException", "call-count", "handler registered %d-th was called %d times; %d exceptions were raised by user code after it was registered (kinds %r)" % (
